@@ -46,9 +46,40 @@ def float_range_case(case):
     return dict(reproduced=bool(violated), violated=violated, observed=dict(fast_validate=repr(fast), accepted=got, stored=repr(stored)))
 
 
+def ctrait_state_case(case):
+    """C14: a trait definition object survives a pickle round trip behaving as before.  Runs in a child process because
+    the failure mode is a crash of the interpreter."""
+    import subprocess
+    prog = r"""
+import pickle, sys
+from traits.api import HasTraits, Property, Int, TraitError
+class A(HasTraits):
+    p = Property(Int)
+    def _get_p(self): return self.__dict__.get('_p', 0)
+    def _set_p(self, v): self.__dict__['_p'] = v
+t = A.class_traits()['p']
+state = t.__getstate__()
+from traits.ctrait import CTrait
+t2 = CTrait(0)
+t2.__setstate__(state)
+assert t2.__getstate__()[:3] == state[:3], (t2.__getstate__()[:3], state[:3])
+class B(HasTraits):
+    pass
+B.add_class_trait('q', t2)
+print('ROUNDTRIP-OK', state[:3])
+"""
+    p = subprocess.run([sys.executable, "-c", prog], capture_output=True, text=True)
+    violated = []
+    if p.returncode < 0:
+        violated.append("interpreter killed by signal %d while pickling a validated Property trait (CTrait.__getstate__)" % -p.returncode)
+    elif p.returncode != 0 or "ROUNDTRIP-OK" not in p.stdout:
+        violated.append("round trip failed: %s" % (p.stderr.strip().splitlines() or ["?"])[-1])
+    return dict(reproduced=bool(violated), violated=violated, observed=dict(returncode=p.returncode, stdout=p.stdout[-200:]))
+
+
 def main():
     case = json.loads(sys.stdin.read())
-    out = {"float_range": float_range_case}[case["family"]](case)
+    out = {"float_range": float_range_case, "ctrait_state": ctrait_state_case}[case["family"]](case)
     print(json.dumps(out, default=repr))
 
 
